@@ -221,6 +221,7 @@ func main() {
 		corpus = flag.String("corpus", "", "corpus directory (*.ops)")
 		replay = flag.String("replay", "", "replay one script file instead of generating")
 		list   = flag.Bool("list", false, "list streams")
+		dumpTo = flag.String("scripts", "", "write all scripts to this file (debugging)")
 	)
 	flag.Parse()
 	if *list {
@@ -255,6 +256,17 @@ func main() {
 		}
 	}
 	rep.Cases = len(scripts)
+	if *dumpTo != "" {
+		var b strings.Builder
+		for _, sc := range scripts {
+			b.WriteString("reset\n")
+			for _, l := range sc {
+				b.WriteString(l + "\n")
+			}
+		}
+		os.WriteFile(*dumpTo, []byte(b.String()), 0o644)
+		return
+	}
 
 	goOuts := make([][]string, len(scripts))
 	distinct := map[string]bool{}
